@@ -290,11 +290,10 @@ def mlayBad (old : Option Cont) (L : Layout) : Bool :=
   | none => false
 
 /-- `SparseVector(Blocked)::convert(other)` is `this->sort(); this->clone(other)` (a DEEP copy in any case):
-    `sort()` throws (`_scalar_index.at(4)`) on a vector without scalars (cleared / moved-from); `x.convert(x)` runs
-    into the self-clone abort -/
+    `sort()` is a no-op on our always-sorted vectors (and returns at once on a cleared / moved-from one);
+    `x.convert(x)` runs into the self-clone abort -/
 def Cont.svConvert (p : Pool) (self other : Cont) (sameObj : Bool) : Except Abort (Pool × Cont) :=
-  if self.sidx = [] then .error .exc
-  else if self.dt = other.dt && self.it = other.it then Cont.cloneFrom p self other sameObj 3
+  if self.dt = other.dt && self.it = other.it then Cont.cloneFrom p self other sameObj 3
   else Cont.cloneCross p self other 3
 
 /-- `convert` between containers of one kind: `Container::assign`, except for the sparse vectors (kinds 7, 8) -/
